@@ -1990,5 +1990,7 @@ func CopyQuery(query *Query) *Query {
 		orderByDefinition: query.orderByDefinition,
 		options:           query.options,
 		postProcessors:    query.postProcessors,
+		// every copy evaluates its own rows: it needs its own memo of whole-table aggregates
+		singletonExecutions: make(map[string]any),
 	}
 }
